@@ -293,6 +293,43 @@ def compare_after_history(cfg_or_path, history: List[Any], fresh_resets: int, la
     return out
 
 
+class HistoryRaised(Exception):
+    """an operation of the dirty history itself raised: `history` ends with that operation"""
+
+    def __init__(self, history, exc):
+        super().__init__(f"{type(exc).__name__}: {str(exc)[:100]}")
+        self.history, self.exc = history, exc
+
+
+def raises_only_after_reset(cfg_or_path, history: List[Any], make: Callable = None) -> dict:
+    """Oracle for an operation that RAISES in an episode after a reset: the used environment executes `history` (its last operation is
+    expected to raise); a NEWLY CONSTRUCTED environment executes the steps of the last episode alone (no reset). `fails` iff the used one
+    raises and the new one does not: the reset left something a newly constructed environment does not have."""
+    make = make or scen.make_env
+    normalise_process_state()
+    used = make(cfg_or_path)
+    used_exc = None
+    try:
+        _apply_history(used, history)
+    except Exception as e:
+        used_exc = f"{type(e).__name__}: {str(e)[:100]}"
+    last = len(history) - 1 - next((i for i, op in enumerate(reversed(history)) if op[0] == "reset"), len(history))
+    tail = [op for op in history[last + 1:] if op[0] == "step"]
+    normalise_process_state()
+    fresh = make(cfg_or_path)
+    fresh_exc = None
+    try:
+        _apply_history(fresh, tail)
+    except Exception as e:
+        fresh_exc = f"{type(e).__name__}: {str(e)[:100]}"
+    for e in (used, fresh):
+        try:
+            e.close()
+        except Exception:
+            pass
+    return {"fails": used_exc is not None and fresh_exc is None and last >= 0, "used": used_exc, "fresh": fresh_exc, "episode_steps": len(tail)}
+
+
 def dirty_history(cfg_or_path, rng: Rng, n_dirty: int, n_later: int, dirty_episodes: int, seeds: List[Optional[int]], make: Callable = None,
                   extra_history: Optional[List[int]] = None, extra_later: Optional[List[int]] = None) -> dict:
     """A used environment (dirty_episodes episodes of generated actions, the last one cut mid-episode); then, for EVERY seed argument in
@@ -311,8 +348,11 @@ def dirty_history(cfg_or_path, rng: Rng, n_dirty: int, n_later: int, dirty_episo
         # `extra_history`: actions every dirty episode ends with (e.g. scans of SEVERAL networks); `extra_later`: actions every compared
         # episode ends with (the scan of one of them alone) - pairs whose second member must not depend on the first having happened
         for a in gen_actions(rng.fork(f"dirty{ep}"), n_dirty, space, 8) + list(extra_history or []):
-            used.step(a)
             history.append(("step", a))
+            try:
+                used.step(a)
+            except Exception as e:
+                raise HistoryRaised(list(history), e)
     old_game = used.game
     # how dirty is the last episode of the history: accepted requests per action type, nodes not ON, files no longer GOOD, ...
     dirtied: Dict[str, int] = {}
@@ -376,6 +416,73 @@ def dirty_history(cfg_or_path, rng: Rng, n_dirty: int, n_later: int, dirty_episo
             "dirtied": dirtied}
 
 
+# ------------------------------------------------------------------------------------------------ the multi-agent environment
+def _ray_base_available() -> str:
+    """`primaite.session.ray_envs` needs `ray.rllib.env.multi_agent_env.MultiAgentEnv` as a base class and nothing else of ray. Where
+    ray.rllib cannot be imported (this sandbox: `dm-tree` is missing) the THIRD-PARTY base is replaced by an empty class, so that the
+    REAL `PrimaiteRayMARLEnv` / `PrimaiteRayEnv` code runs (not a re-implementation of it)."""
+    import sys
+    import types
+    if "primaite.session.ray_envs" in sys.modules:
+        return "loaded"
+    try:
+        import ray.rllib.env.multi_agent_env  # noqa: F401
+        return "ray"
+    except Exception:
+        pass
+
+    class MultiAgentEnv:
+        def __init__(self, *a, **k):
+            pass
+
+        def reset(self, *, seed=None, options=None):
+            return None
+    for name in ("ray.rllib", "ray.rllib.env", "ray.rllib.env.multi_agent_env"):
+        m = types.ModuleType(name)
+        m.__path__ = []
+        sys.modules[name] = m
+    sys.modules["ray.rllib.env.multi_agent_env"].MultiAgentEnv = MultiAgentEnv
+    return "stub-base"
+
+
+class MarlAdapter:
+    """`PrimaiteRayMARLEnv` behind the single-agent surface the differentials use: one integer action `a` becomes the action
+    `(a + k) mod n_k` of the k-th RL agent; the record carries every agent's observation and reward (the scalar reward is their sum, the
+    per-agent rewards travel inside the observation record), the `__all__` flags and every agent's last history item. Everything else
+    (`game`, `episode_counter`, `episode_scheduler`, `io`) is the wrapped environment's."""
+
+    class _Space:
+        def __init__(self, n: int):
+            self.n = n
+
+    def __init__(self, cfg):
+        _ray_base_available()
+        import logging
+        from primaite.session.ray_envs import PrimaiteRayMARLEnv
+        logging.getLogger("primaite.session.environment").setLevel(logging.WARNING)    # the class logs every step at INFO level
+        self.env = PrimaiteRayMARLEnv(env_config=cfg)
+
+    def __getattr__(self, name):
+        return getattr(self.__dict__["env"], name)
+
+    @property
+    def action_space(self):
+        return MarlAdapter._Space(max(int(a.action_manager.space.n) for a in self.env.agents.values()))
+
+    def reset(self, seed=None, options=None):
+        return self.env.reset(seed=seed, options=options)
+
+    def step(self, a: int):
+        acts = {name: (a + k) % int(ag.action_manager.space.n) for k, (name, ag) in enumerate(self.env.agents.items())}
+        obs, rewards, term, trunc, infos = self.env.step(acts)
+        info = {"agent_actions": {name: agent.history[-1] for name, agent in self.env.game.agents.items()}}
+        return ({"obs": obs, "rewards": {k: repr(float(v)) for k, v in rewards.items()}, "terminateds": term, "truncateds": trunc},
+                float(sum(rewards.values())), term.get("__all__"), trunc.get("__all__"), info)
+
+    def close(self):
+        self.env.close()
+
+
 # ------------------------------------------------------------------------------------------------ (b) interleaving
 _IMPORT_TIME: Dict[str, Any] = {}
 
@@ -395,8 +502,8 @@ def nmne_class_attrs_at_import() -> Dict[str, Any]:
 class Shield:
     """Save / restore a channel of process-global state around the other instance's operations (attribution only)."""
 
-    def __init__(self, rng: bool, nmne: bool):
-        self.rng, self.nmne = rng, nmne
+    def __init__(self, rng: bool, nmne: bool, simout: bool = False):
+        self.rng, self.nmne, self.simout = rng, nmne, simout
 
     def __enter__(self):
         import random
@@ -404,7 +511,8 @@ class Shield:
         import numpy as np
         from primaite.game.agent.observations.nic_observations import NICObservation
         from primaite.simulator.network.hardware.base import NetworkInterface
-        self.saved = (random.getstate(), np.random.get_state(), NetworkInterface.nmne_config, NICObservation.capture_nmne)
+        from primaite.simulator import SIM_OUTPUT
+        self.saved = (random.getstate(), np.random.get_state(), NetworkInterface.nmne_config, NICObservation.capture_nmne, dict(vars(SIM_OUTPUT)))
         return self
 
     def __exit__(self, *exc):
@@ -419,6 +527,11 @@ class Shield:
         if self.nmne:
             NetworkInterface.nmne_config = self.saved[2]
             NICObservation.capture_nmne = self.saved[3]
+        if self.simout:
+            # the process-wide output settings (SIM_OUTPUT: save_* flags, log levels, paths) as they were before the other instance's operation
+            from primaite.simulator import SIM_OUTPUT
+            vars(SIM_OUTPUT).clear()
+            vars(SIM_OUTPUT).update(self.saved[4])
         return False
 
 
@@ -604,6 +717,9 @@ def gen_schedule(rng: Rng, n_a: int, space_a: int, space_b: int, b_first: bool, 
 # VIOLATION. The merged known_findings.json (not editable from here) still lists F-10 as open with channel "nmne-class-attrs"; the channel is
 # therefore reported under a name that stale entry does not match.
 NMNE_CHANNEL = "nmne-class-attrs-written-again(F-10-regression)"
+# the process-wide output settings (`primaite.simulator.SIM_OUTPUT`, written by every `PrimaiteIO(...)`, i.e. by every environment's
+# construction): classified sink-only, so a trajectory difference that disappears when they are shielded is a VIOLATION
+SIMOUT_CHANNEL = "sim-output-settings"
 
 
 def interleaving(cfg_a: Dict, cfg_b: Dict, schedule: List[Tuple], globals_fp: Optional[Callable[[], Dict[str, str]]] = None) -> dict:
@@ -622,24 +738,24 @@ def interleaving(cfg_a: Dict, cfg_b: Dict, schedule: List[Tuple], globals_fp: Op
     if diff is None:
         return res
     fixes = {}
-    for name, sh in (("global-rng", (True, False)), (NMNE_CHANNEL, (False, True)), ("both", (True, True))):
+    singles = (("global-rng", (True, False, False)), (NMNE_CHANNEL, (False, True, False)), (SIMOUT_CHANNEL, (False, False, True)))
+    for name, sh in singles + (("both", (True, True, True)),):
         t = run_schedule(cfg_a, cfg_b, schedule, shield=sh)
         fixes[name] = first_difference(solo, t)
     if fixes["both"] is not None:
         res["channels"] = ["unknown"]
         res["residual"] = fixes["both"]
         # which known channels contribute as well
-        if fixes["global-rng"] != diff:
-            res["channels"].append("global-rng")
-        if fixes[NMNE_CHANNEL] != diff:
-            res["channels"].append(NMNE_CHANNEL)
+        for name, _ in singles:
+            if fixes[name] != diff:
+                res["channels"].append(name)
     else:
-        if fixes["global-rng"] is None:
-            res["channels"] = ["global-rng"]
-        elif fixes[NMNE_CHANNEL] is None:
-            res["channels"] = [NMNE_CHANNEL]
+        alone = [name for name, _ in singles if fixes[name] is None]
+        if alone:
+            res["channels"] = alone[:1]
         else:
-            res["channels"] = ["global-rng", NMNE_CHANNEL]
+            contributing = [name for name, _ in singles if fixes[name] != diff]
+            res["channels"] = contributing or [name for name, _ in singles]
     res["fixes"] = {k: (v is None) for k, v in fixes.items()}
     return res
 
